@@ -745,7 +745,7 @@ func (b *byzantine) forgeBlock(src *node, hf *block.V2HeaderFormat, bf *block.V2
 			b.s.rc.Probe("forged_cvl_still_valid")
 		}
 	case "C08":
-		kinds := []string{"votes-hash-mismatch", "tx-body-swap", "random-bytes", "truncated", "byteflip", "body-of-other-block", "btp-digest-junk"}
+		kinds := []string{"votes-hash-mismatch", "tx-body-swap", "random-bytes", "truncated", "byteflip", "body-of-other-block", "btp-digest-junk", "btp-digest-other-valid"}
 		k := kinds[t.Choose("forge.c08", len(kinds))]
 		info.kind = k
 		switch k {
@@ -789,6 +789,17 @@ func (b *byzantine) forgeBlock(src *node, hf *block.V2HeaderFormat, bf *block.V2
 			nb.Votes = pv
 		case "btp-digest-junk":
 			nb.BTPDigest = t.Bytes("forge.btp", 24)
+		case "btp-digest-other-valid":
+			// a well-formed digest that is not the one the header commits to
+			alts := [][]byte{{0xc1, 0xc0}, {0xc0}, {0xc2, 0xc1, 0xc0}}
+			alt := alts[t.Choose("forge.btpalt", len(alts))]
+			if bytes.Equal(alt, bf.BTPDigest) {
+				alt = alts[(t.Choose("forge.btpalt2", len(alts)-1)+1)%len(alts)]
+				if bytes.Equal(alt, bf.BTPDigest) {
+					return nil, nil
+				}
+			}
+			nb.BTPDigest = alt
 		}
 	default:
 		return nil, nil
@@ -816,73 +827,177 @@ func (b *byzantine) onAcceptedVote(n *node, vm *consensus.VoteMessage) {
 
 func (b *byzantine) onReceive(self, src *node, m outMsg) {}
 
-// ---- C06: double sign reports issued by correct nodes
+// ---- C06: double sign evidence
 
+type evView struct {
+	signer string
+	h      int64
+	r      int32
+	kind   string
+	nid    uint32
+	hasNID bool
+	signed []byte
+}
+
+func decodeEvidence(d module.DoubleSignData) *evView {
+	sub := consensus.ProtoVote
+	if d.Type() == "proposal" {
+		sub = consensus.ProtoProposal
+	}
+	msg, err := consensus.UnmarshalMessage(uint16(sub), d.Bytes())
+	if err != nil {
+		return nil
+	}
+	switch m := msg.(type) {
+	case *consensus.VoteMessage:
+		sb := consensus.SimSignedBytes(m)
+		v := &evView{signer: signerOf(m.Signature, sb), h: m.Height, r: m.Round, kind: fmt.Sprintf("vote%d", m.Type), signed: sb}
+		// the network id a vote names: in the part-set app data (block vote) or as the block id (nil vote)
+		if m.BlockPartSetIDAndNTSVoteCount != nil {
+			v.nid = uint32(m.BlockPartSetIDAndNTSVoteCount.AppData() >> 16)
+		} else {
+			var nid int32
+			if _, err := codec.UnmarshalFromBytes(m.BlockID, &nid); err == nil {
+				v.nid = uint32(nid)
+			}
+		}
+		v.hasNID = v.nid != 0
+		return v
+	case *consensus.ProposalMessage:
+		sb := consensus.SimSignedBytes(m)
+		return &evView{signer: signerOf(m.Signature, sb), h: m.Height, r: m.Round, kind: "proposal", nid: m.NID, hasNID: m.NID != 0, signed: sb}
+	}
+	return nil
+}
+
+// judgeEvidence is the oracle's own reading of the property: "" = genuine
+// conflict, otherwise the reason why the pair is no evidence.
+func judgeEvidence(a, b *evView) string {
+	switch {
+	case a == nil || b == nil:
+		return "undecodable"
+	case a.signer == "" || a.signer != b.signer:
+		return "different-signers"
+	case a.h != b.h:
+		return "different-heights"
+	case a.r != b.r:
+		return "different-rounds"
+	case a.kind != b.kind:
+		return "different-types"
+	case a.hasNID && b.hasNID && a.nid != b.nid:
+		return "different-networks"
+	case bytes.Equal(a.signed, b.signed):
+		return "identical-messages"
+	}
+	return ""
+}
+
+// checkDSD: the "reported" half — evidence a correct node hands to its service manager.
 func (s *sim) checkDSD(n *node, data []module.DoubleSignData) {
 	if len(data) != 2 {
 		s.rc.Violate("bad-double-sign-report", "arity", "n%d reported %d items", n.idx, len(data))
 		return
 	}
-	type view struct {
-		signer string
-		h      int64
-		r      int32
-		kind   string
-		nid    uint32
-		hasNID bool
-		signed []byte
-	}
-	dec := func(d module.DoubleSignData) *view {
-		sub := consensus.ProtoVote
-		if d.Type() == "proposal" {
-			sub = consensus.ProtoProposal
-		}
-		msg, err := consensus.UnmarshalMessage(uint16(sub), d.Bytes())
-		if err != nil {
-			return nil
-		}
-		switch m := msg.(type) {
-		case *consensus.VoteMessage:
-			sb := consensus.SimSignedBytes(m)
-			v := &view{signer: signerOf(m.Signature, sb), h: m.Height, r: m.Round, kind: fmt.Sprintf("vote%d", m.Type), signed: sb}
-			if nid, err := m.NID(); err == nil {
-				v.nid, v.hasNID = nid, nid != 0
-			}
-			return v
-		case *consensus.ProposalMessage:
-			sb := consensus.SimSignedBytes(m)
-			return &view{signer: signerOf(m.Signature, sb), h: m.Height, r: m.Round, kind: "proposal", nid: m.NID, hasNID: m.NID != 0, signed: sb}
-		}
-		return nil
-	}
-	a, b := dec(data[0]), dec(data[1])
-	if a == nil || b == nil {
-		s.rc.Violate("bad-double-sign-report", "undecodable", "n%d reported evidence that does not decode (types %s/%s)", n.idx, data[0].Type(), data[1].Type())
-		return
-	}
+	a, b := decodeEvidence(data[0]), decodeEvidence(data[1])
 	s.rc.Probe("double_sign_report_checked")
-	sig := ""
-	switch {
-	case a.signer == "" || a.signer != b.signer:
-		sig = "different-signers"
-	case a.h != b.h:
-		sig = "different-heights"
-	case a.r != b.r:
-		sig = "different-rounds"
-	case a.kind != b.kind:
-		sig = "different-types"
-	case a.hasNID && b.hasNID && a.nid != b.nid:
-		sig = "different-networks"
-	case bytes.Equal(a.signed, b.signed):
-		sig = "identical-messages"
-	}
-	if sig != "" {
-		s.rc.Violate("bogus-double-sign-evidence", sig, "n%d reported as double-sign evidence two messages that are not a genuine conflict (%s): %s h=%d r=%d %s vs %s h=%d r=%d %s",
-			n.idx, sig, a.signer, a.h, a.r, a.kind, b.signer, b.h, b.r, b.kind)
+	if sig := judgeEvidence(a, b); sig != "" {
+		s.rc.Violate("bogus-double-sign-evidence", sig, "n%d reported as double-sign evidence two messages that are not a genuine conflict (%s)", n.idx, sig)
 		return
 	}
 	if c := s.orc.isCorrect(a.signer); c != nil {
 		// a correct validator was caught equivocating by its peers: that is also a C02 matter
 		s.rc.Violate("equivocation", "reported-by-peer", "n%d holds double-sign evidence against correct validator n%d (h=%d r=%d %s)", n.idx, c.idx, a.h, a.r, a.kind)
+	}
+}
+
+// evidenceTick: the "accepted" half. The adversary assembles pairs of signed
+// messages (real traffic of the run plus its own crafted votes) with a chosen
+// relation and submits them to the acceptance predicate every double-sign
+// report passes through in goloop (transaction PreValidate, DSR handler and
+// DSR manager all do: decode both items with consensus.DecodeDoubleSignData,
+// ValidateNetwork, IsConflictWith). Accepted pairs must be genuine conflicts.
+func (b *byzantine) evidenceTick() {
+	s, t := b.s, b.s.tape
+	if !b.active || b.voteTmpl == nil {
+		return
+	}
+	var byz []*node
+	for _, n := range s.nodes {
+		if n.byz {
+			byz = append(byz, n)
+		}
+	}
+	if len(byz) == 0 {
+		return
+	}
+	w := byz[t.Choose("ev.signer", len(byz))].w
+	h := int64(1 + t.Choose("ev.h", 6))
+	r := int32(t.Choose("ev.r", 3))
+	vt := consensus.VoteType(t.Choose("ev.type", 2))
+	ts := common.UnixMicroFromTime(time.Now())
+	blockDecision := func(nid uint32) ([]byte, *consensus.PartSetIDAndAppData) {
+		if as := b.alts[h]; len(as) > 0 {
+			a := as[0]
+			return a.bid, a.psid.ID().WithAppData(uint64(nid)<<16 | uint64(uint16(a.psid.AppData())))
+		}
+		return nil, nil
+	}
+	nilID := func(nid int) []byte { return codec.MustMarshalToBytes(nid) }
+	_, base := b.craftVote(w, h, r, vt, nilID(1), nil, ts)
+	if base == nil {
+		return
+	}
+	rel := []string{"genuine", "identical", "other-round", "other-height", "other-type", "other-signer", "other-network-nil", "other-network-block", "unspecified-network"}[t.Choose("ev.rel", 9)]
+	var other []byte
+	switch rel {
+	case "genuine":
+		_, other = b.craftVote(w, h, r, vt, nilID(1), nil, ts+1)
+	case "identical":
+		other = base
+	case "other-round":
+		_, other = b.craftVote(w, h, r+1, vt, nilID(1), nil, ts+1)
+	case "other-height":
+		_, other = b.craftVote(w, h+1, r, vt, nilID(1), nil, ts+1)
+	case "other-type":
+		_, other = b.craftVote(w, h, r, 1-vt, nilID(1), nil, ts+1)
+	case "other-signer":
+		_, other = b.craftVote(s.newWallet("ev.key"), h, r, vt, nilID(1), nil, ts+1)
+	case "other-network-nil":
+		_, other = b.craftVote(w, h, r, vt, nilID(2), nil, ts+1)
+	case "other-network-block":
+		bid, p1 := blockDecision(1)
+		_, p2 := blockDecision(2)
+		if bid == nil {
+			return
+		}
+		_, base = b.craftVote(w, h, r, vt, bid, p1, ts)
+		_, other = b.craftVote(w, h, r, vt, bid, p2, ts+1)
+	case "unspecified-network":
+		bid, p0 := blockDecision(0)
+		if bid == nil {
+			return
+		}
+		_, other = b.craftVote(w, h, r, vt, bid, p0, ts+1)
+	}
+	if base == nil || other == nil {
+		return
+	}
+	if t.Permille("ev.swap", 500) {
+		base, other = other, base
+	}
+	d0, err0 := consensus.DecodeDoubleSignData(module.DSTVote, base)
+	d1, err1 := consensus.DecodeDoubleSignData(module.DSTVote, other)
+	s.rc.Probe("evidence_pair_submitted:" + rel)
+	if err0 != nil || err1 != nil {
+		return
+	}
+	accepted := d0.ValidateNetwork(1) && d1.ValidateNetwork(1) && d0.IsConflictWith(d1)
+	why := judgeEvidence(decodeEvidence(d0), decodeEvidence(d1))
+	s.rc.Event("EVIDENCE rel=%s accepted=%v oracle=%q", rel, accepted, why)
+	if accepted {
+		s.rc.Probe("evidence_accepted")
+		if why != "" {
+			s.rc.Violate("bogus-double-sign-evidence-accepted", why, "the evidence acceptance predicate (DecodeDoubleSignData + ValidateNetwork + IsConflictWith) accepted a pair that is no genuine conflict: %s (constructed relation: %s)", why, rel)
+		}
 	}
 }
